@@ -219,11 +219,18 @@ def cli_batch(res):
         shapes = [(['--', '\n', '--', '\n'], 'next-line'), (['//', '\n', ' ', '//'], 'next-line'), (['blk', '\n', '--'], 'next-line'),
                   (['\n', '--', '\n', '\t', '--', '\n', '--'], 'next-line'), (['--', '\r\n', '--'], 'next-line'),
                   (['blk2', '\n', '//'], 'next-line'), (['--'], 'next-line'), ([], 'same-line'), (['blk', 'blk'], 'same-line')]
+        # comments that mention an include directive, next to a file of that name (a cart file is scanned for include
+        # lines before it is lexed: only lines that START with the directive are includes)
+        open(os.path.join(d, 'inc.lua'), 'wb').write(b'included=12345\n')
+        for text in (b'-- my game\n--#include inc.lua\nx=1\n', b'-- t\n-- see #include inc.lua for more\ny=2\n',
+                     b'//#include inc.lua\n// b\nz=3\n', b'--[[ #include inc.lua ]]\n-- a\nz=3\n',
+                     b'-- t\n-- a\nx=1 -- #include inc.lua\ny=2\n'):
+            shapes.append((None, text))
         for n, (seq, fol) in enumerate(shapes):
-            src = header_source(seq, fol, BODIES[n % 3])
+            src = fol if seq is None else header_source(seq, fol, BODIES[n % 3])
             for ext in ('.p8', '.p8.png'):
                 res.evaluations += 1
-                case = {'src': src, 'seq': list(seq), 'follower': fol, 'cli': ext}
+                case = {'src': src, 'seq': list(seq or ()), 'follower': fol if seq is not None else 'text', 'cli': ext}
                 try:
                     intoks = reflex.lex(src)
                     obj, want = c01.minify(src.replace(b'\r', b' ') if ext == '.p8.png' else src, 'default')
@@ -262,6 +269,11 @@ def cli_batch(res):
                         ok = False
                         break
                     k += 2
+                if ok and got.rstrip(b'\n') != want.rstrip(b'\n'):
+                    res.violation('C19|cli|differs-from-writer|%s' % ext,
+                                  'p8tool luamin on a %s cart with code %r wrote %r, the minifier gives %r for that code' % (
+                                      ext, src, got, want), case)
+                    ok = False
                 if ok:
                     res.outcome(('cli', ext, len(lead[:2])))
     finally:
